@@ -283,8 +283,9 @@ pub fn canon_tokens(ts: &[Tok]) -> String {
     ts.iter().map(|t| t.canon()).collect::<Vec<_>>().join(" ")
 }
 
-/// real tokens vs model tokens: same non-ws tokens in the same order, and every `_` of the
-/// model (mandatory white space) is present in the real output (which may have more)
+/// real tokens vs model tokens: same non-ws tokens in the same order, every `_` of the model
+/// (mandatory white space) is present in the real output, and the real output has additional white
+/// space only at soft breaks, i.e. right before a `)` (the layouts of `printProgramTokensL`)
 fn tokens_agree(real: &str, model: &str) -> bool {
     let r: Vec<&str> = real.split(' ').filter(|s| !s.is_empty()).collect();
     let m: Vec<&str> = model.split(' ').filter(|s| !s.is_empty()).collect();
@@ -301,6 +302,9 @@ fn tokens_agree(real: &str, model: &str) -> bool {
             j += 1;
         } else {
             if r[i] == "_" {
+                if i + 1 >= r.len() || r[i + 1] != ")" {
+                    return false;
+                }
                 i += 1;
                 continue;
             }
@@ -981,6 +985,9 @@ pub fn text(ctx: &Ctx) -> Report {
                 continue;
             }
         };
+        if real_tokens.iter().any(|t| matches!(t, Tok::Str(r) if r.contains('\n'))) {
+            rep.fail(&format!("text:layout:{key}"), "a string token contains a raw new-line", json!({"program": pw}), json!({"text": pretty}));
+        }
         push(&mut reqs, &mut expect, &mut token_cmp, format!("text:print:{key}"), format!("text-print name {}", pw), format!("ok {}", canon_tokens(&real_tokens)), true);
         rep.sample(json!({"program": pw, "pretty": pretty}));
         // --- (b) parser on printer output
